@@ -237,7 +237,7 @@ func init() {
 		Level: "model_checking",
 		Rule: "for every accepted program of the core corpus K and the scaled families S (string / identifier / block-name lengths around 94, 240/241, 2287/2288, 4096, 67823/67824; constant pools of 240..242; offsets in every varint class; boundary floats) and for program names of length 0..67824 and names holding %, NUL, newline, non-ASCII and invalid UTF-8 bytes: " +
 			"Dump, then LoadProg under every read delivery of a bounded family (whole, 1 byte/read, data+EOF, halves, every fixed size 2..17 and 4095..4097, every partition with <=k cut points: k=1 for dumps <=6000 B, k=2 for <=150 B (thorough <=900 B), k=3 for <=48 B (thorough <=110 B)); " +
-			"oracle: nil errors, identical disassembly, identical execution (output, blocks, binding, warnings, error text incl. position), byte-identical re-dump, and the independent decoder recovers the name and a line table equal to the newline offsets of the source. A case is (program, name); counters.loads counts LoadProg calls.",
+			"oracle: nil errors, identical disassembly, identical execution (output, blocks, binding, warnings, error text incl. position), byte-identical re-dump, and the independent decoder recovers the name and a line table equal to the newline offsets of the source. Thorough adds every program of the C01-C04 enumerations under the whole / 1-byte / fixed-size deliveries. A case is (program, name); counters.loads counts LoadProg calls.",
 		Subs:           []*fw.Sub{subC09},
 		BudgetQuick:    100,
 		BudgetThorough: 1500,
@@ -298,6 +298,13 @@ func init() {
 			// string constants beyond one mebibyte (a loader reading in 1 MiB pieces)
 			for _, L := range []int{1048575, 1048576, 1048577, 1600000, 2097152, 2097153} {
 				c.Do(subC09, &c09Case{Name: fmt.Sprintf("megastring-%d", L), Src: `var s = "` + strings.Repeat("m", L) + `"` + "\nprint 1\ndef b { f = \"tail\" }", PName: "input", Cuts: 0})
+			}
+			if c.Thorough() {
+				// every program of the C01-C04 enumerations, under the fixed-size deliveries
+				enumAllPrograms(c, func(src, shard string) bool {
+					c.Do(subC09, &c09Case{Name: "E:" + src, Src: src, PName: "input", Cuts: 0})
+					return !c.Expired()
+				})
 			}
 			for i, pn := range []string{"%", "100%.bcl", "%s%d%v", "conf/my%20service.bcl", "a\x00b", "é€", "line1\nline2", "\xff\xfe", "== x ==", " ", "%!(NOVERB)"} {
 				c.Do(subC09, &c09Case{Name: fmt.Sprintf("pname-special-%d", i), Src: `var a=1; def b "nm" { x = a+2.5; print "s"+x } bind b->struct`, PName: pn, Cuts: 1})
